@@ -81,6 +81,8 @@ pub enum Op {
     TrapExit,
     /// `unset HOME`: a variable that every process starts with (known finding R57)
     UnsetInherited { name: String },
+    /// `PATH=/vh-nonexistent`: no external command is found anymore, also not by the carrier
+    BreakPath,
 }
 
 #[derive(Clone, Debug, PartialEq, Serialize, Deserialize)]
@@ -359,6 +361,7 @@ impl Op {
             Op::WipeState => "carrier.wipe-state-dir".into(),
             Op::TrapExit => "trap.exit".into(),
             Op::UnsetInherited { .. } => "var.unset-inherited".into(),
+            Op::BreakPath => "var.path-broken".into(),
         }
     }
 
@@ -391,6 +394,7 @@ impl Op {
             Op::WipeState => "carrier.wipe",
             Op::TrapExit => "trap.exit",
             Op::UnsetInherited { .. } => "var.unset-inherited",
+            Op::BreakPath => "var.path-broken",
         }
     }
 
@@ -443,6 +447,7 @@ impl Op {
             Op::RmCwd => "command mkdir -p vh-gone && cd vh-gone && { command rmdir \"$PWD\" || true; }".into(),
             Op::TrapExit => "trap 'true' EXIT".into(),
             Op::UnsetInherited { name } => format!("unset {name}"),
+            Op::BreakPath => "PATH=/vh-nonexistent".into(),
             Op::WipeState => "case \"${__SCRUT_TEMP_STATE_PATH:-}\" in */tmp/.state.*) command rm -rf -- \"$__SCRUT_TEMP_STATE_PATH\" ;; esac".into(),
         }
     }
@@ -1146,6 +1151,7 @@ struct Risky {
     wipe_state: bool,
     trap_exit: bool,
     unset_inherited: bool,
+    break_path: bool,
 }
 
 fn gen_history(rng: &mut Rng) -> History {
@@ -1163,6 +1169,7 @@ fn gen_history(rng: &mut Rng) -> History {
         wipe_state: rng.chance(1, 10),
         trap_exit: rng.chance(1, 25),
         unset_inherited: rng.chance(1, 25),
+        break_path: rng.chance(1, 25),
     };
     let n_steps = rng.range(2, 8);
     // a history that may contain a risky class does contain it: forced at a random step
@@ -1180,11 +1187,12 @@ fn gen_history(rng: &mut Rng) -> History {
     let force_wipe = slot(rng, risky.wipe_state, n_steps - 1);
     let force_trap_exit = slot(rng, risky.trap_exit, n_steps - 1);
     let force_unset_inherited = slot(rng, risky.unset_inherited, n_steps - 1);
+    let force_break_path = slot(rng, risky.break_path, n_steps - 1);
     let mut m = Model { extglob_locked: false, posix: false, declare_shadowed: false, cwd_gone: false, readonly_used: BTreeSet::new(), ups: 0 };
     let mut steps = vec![];
     for si in 0..n_steps {
         let n_ops = rng.range(1, 4);
-        let forced_here = [force_readonly, force_allexport, force_dashed, force_posix, force_shadow_dir, force_shadow_builtin, force_shadow_external, force_shadow_alias, force_shadow_wrapper, force_rm_cwd, force_wipe, force_trap_exit, force_unset_inherited].iter().any(|f| *f == Some(si));
+        let forced_here = [force_readonly, force_allexport, force_dashed, force_posix, force_shadow_dir, force_shadow_builtin, force_shadow_external, force_shadow_alias, force_shadow_wrapper, force_rm_cwd, force_wipe, force_trap_exit, force_unset_inherited, force_break_path].iter().any(|f| *f == Some(si));
         let detached = !forced_here && rng.chance(1, 12);
         let mut ops = vec![];
         let posix_before = m.posix;
@@ -1227,6 +1235,9 @@ fn gen_history(rng: &mut Rng) -> History {
         }
         if force_unset_inherited == Some(si) {
             ops.push(Op::UnsetInherited { name: "HOME".into() });
+        }
+        if force_break_path == Some(si) {
+            ops.push(Op::BreakPath);
         }
         if force_rm_cwd == Some(si) && !m.cwd_gone {
             m.cwd_gone = true;
@@ -1304,6 +1315,7 @@ impl Monitor for C12 {
             ("probed:carrier.wipe".into(), f(10, 150)),
             ("probed:trap.exit".into(), f(2, 30)),
             ("probed:var.unset-inherited".into(), f(2, 30)),
+            ("probed:var.path-broken".into(), f(2, 30)),
             ("probed:fn.dashed".into(), f(15, 225)),
             ("probed:alias".into(), f(70, 1050)),
             ("probed:opt".into(), f(70, 1050)),
